@@ -15,7 +15,8 @@
      suf = skipnN i tgt and refp_len = lenN refp.
    - the hash function is a parameter ([hash]); [encode]/[decode_full] instantiate it with [murmur64].
    - `(ht_size as f64 / 0.7) as u64` is modelled as floor(count*10/7) (equal to the f64 computation for
-     count < 2^50: the quotient is never within 2^-52 relative distance below an integer). *)
+     count <= 788129934789842 (~2^49.5; n = 788129934789843 is the first value where binary64 n/0.7 truncates differently,
+     see props/C12F.v's report in DESIGN.md 11.5b); counts are reference lengths < 2^32). *)
 From Ragc Require Export Mach.
 From Ragc Require Export Consts_lz MurMur.
 
